@@ -79,9 +79,19 @@ def _sign(a, b):
     return -1 if a < b else (0 if a == b else 1)
 
 
-def ref_compare(a, b):
+_COMPARE_WORK = [0]
+
+
+def ref_compare(a, b, _depth=0):
     """Total preorder: null first; same type by natural order; arrays lexicographic then by length; objects
     by sorted (key, value) pairs then by size; different types by type name."""
+    if _depth == 0:
+        _COMPARE_WORK[0] = 0
+    _COMPARE_WORK[0] += 1
+    if _COMPARE_WORK[0] > 400000:
+        # a value that shares one sub-array in many places is a DAG whose tree expansion is astronomically large: comparing it element by
+        # element takes for ever - for the implementation too. Resource exhaustion; reported like a host stack overflow (the checks discard it)
+        raise RecursionError('comparison of a value with an astronomically large tree expansion')
     if a is None:
         return 0 if b is None else -1
     if b is None:
@@ -95,7 +105,7 @@ def ref_compare(a, b):
         return _sign(norm_dt(a), norm_dt(b))
     if ta == 'array':
         for x, y in zip(a, b):
-            c = ref_compare(x, y)
+            c = ref_compare(x, y, _depth + 1)
             if c:
                 return c
         return _sign(len(a), len(b))
@@ -103,7 +113,7 @@ def ref_compare(a, b):
         ia = sorted(a.items(), key=lambda kv: kv[0])
         ib = sorted(b.items(), key=lambda kv: kv[0])
         for (k1, v1), (k2, v2) in zip(ia, ib):
-            c = _sign(k1, k2) or ref_compare(v1, v2)
+            c = _sign(k1, k2) or ref_compare(v1, v2, _depth + 1)
             if c:
                 return c
         return _sign(len(ia), len(ib))
